@@ -138,7 +138,7 @@ def cascade_configs(ctx):
             out.append({"tag": "cascade|" + "/".join("%s.%d.%s" % (e["cfg"], e["sp"], "+".join(e["comps"]) or "-") for e in h),
                         "spec": cascade_spec(h), "extents": {"K": 2, "M": 2, "N": 2}})
     if ctx.quick:
-        small = [e for e in evs if e["comps"] in ([], ["Mul0"], ["Mul1"], ["traffic", "Mul0"]) and e["sp"] == 1]
+        small = [e for e in evs if e["comps"] in ([], ["Mul0"], ["Mul1"], ["traffic"], ["traffic", "Mul0"], ["traffic", "Mul1"]) and e["sp"] == 1]
         for h in itertools.product(small, repeat=3):
             out.append({"tag": "cascade|" + "/".join("%s.%d.%s" % (e["cfg"], e["sp"], "+".join(e["comps"]) or "-") for e in h),
                         "spec": cascade_spec(h), "extents": {"K": 2, "M": 2, "N": 2}})
